@@ -268,6 +268,8 @@ class Check:
             for n in names:
                 self.obligations.append({'name': n, 'kind': 'theorem', 'ok': False, 'msg': 'audit failed'})
             return False
+        if self.tier == 'thorough' and os.environ.get('VERIF_NO_COQCHK') != '1':
+            ok_all = self.coqchk() and ok_all
         for r in res:
             bad = [a for a in r['axioms'] if a not in ALLOWED_AXIOMS]
             ok = r['closed'] or not bad
@@ -277,6 +279,20 @@ class Check:
                 self.broken.append('theorem %s depends on axioms %s' % (r['name'], bad))
                 ok_all = False
         return ok_all
+
+    def coqchk(self):
+        """thorough tier: re-check Props/<prop>.vo and everything it depends on with the independent checker
+        and record the axioms it reports (must be none)."""
+        with BuildLock():
+            rc, out = sh('timeout 1500 coqchk -silent -o -Q . JugV JugV.Props.%s' % self.prop, cwd=COQ, timeout=1560)
+        m = re.search(r'\* Axioms:(.*?)\n\s*\n\* Constants/Inductives relying on type-in-type:(.*?)\n\s*\n'
+                      r'\* Constants/Inductives relying on unsafe \(co\)fixpoints:(.*?)\n\s*\n\* Inductives whose positivity is assumed:(.*?)\n', out, re.S)
+        clean = rc == 0 and m is not None and all(g.strip() == '<none>' for g in m.groups())
+        self.obligations.append({'name': 'coqchk -o Props/%s.vo (independent re-check; axioms, type-in-type, unsafe fixpoints, assumed positivity: none)' % self.prop,
+                                 'kind': 'coqchk', 'ok': clean, 'msg': '' if clean else out[-600:]})
+        if not clean:
+            self.broken.append('coqchk of Props/%s.vo: %s' % (self.prop, out[-300:].replace('\n', ' | ')))
+        return clean
 
     # ------------------------------------------------------------------ cases
     def cases(self, name, imports, case_type, chk, cases, shard=400, preamble=''):
